@@ -659,9 +659,16 @@ XSD = '{http://www.w3.org/2001/XMLSchema}'
 GLOBAL_TAGS = {XSD + t for t in ('element', 'complexType', 'simpleType', 'group', 'attributeGroup', 'attribute', 'notation')}
 
 
-def corpus(ctx: Ctx, tmp: str) -> None:
-    import lxml.etree as ET
+def build_any(path: str):
+    """the schema with the XSD 1.0 processor, or (when that fails, e.g. XSD 1.1 constructs) the 1.1 one"""
     import xmlschema
+    try:
+        return xmlschema.XMLSchema10(path), xmlschema.XMLSchema10
+    except Exception:   # noqa
+        return xmlschema.XMLSchema11(path), xmlschema.XMLSchema11
+
+
+def corpus(ctx: Ctx, tmp: str) -> None:
     base = REPO / 'tests' / 'test_cases'
     usable = 0
     for ci, (rel, xmls) in enumerate(corpus_list(ctx)):
@@ -672,73 +679,135 @@ def corpus(ctx: Ctx, tmp: str) -> None:
             continue
         d = os.path.join(tmp, f'corpus{ci}')
         shutil.copytree(src.parent, os.path.join(d, 'orig'))
-        main0 = os.path.join(d, 'orig', src.name)
-        try:
-            s0 = xmlschema.XMLSchema(main0)
-        except Exception:   # noqa  (XSD 1.1 schemas, deliberately invalid test schemas, remote imports)
-            ctx.count('corpus: base does not build (skipped)')
-            continue
-        usable += 1
+        if arrangements_of(ctx, d, src.parent, src.name, [str(src.parent / x) for x in xmls if (src.parent / x).exists()],
+                           rel, ctx.pick(3, 8)):
+            usable += 1
+
+
+# schema documents whose *header* carries defaults that every component of the document depends on: moving a
+# declaration to an included document with the same header, or permuting, must not change anything
+HEADER_FAMILY = [
+    ('defaultAttributes (1.1)', '''<xs:schema xmlns:xs="http://www.w3.org/2001/XMLSchema" targetNamespace="urn:h" xmlns:h="urn:h"
+   elementFormDefault="qualified" defaultAttributes="h:common">
+ <xs:element name="doc" type="h:docType"/>
+ <xs:complexType name="docType"><xs:sequence><xs:element name="node" type="h:nodeType" maxOccurs="unbounded"/></xs:sequence></xs:complexType>
+ <xs:complexType name="nodeType"><xs:sequence><xs:element name="leaf" type="h:leafType" minOccurs="0"/></xs:sequence></xs:complexType>
+ <xs:complexType name="leafType"><xs:simpleContent><xs:extension base="xs:int"/></xs:simpleContent></xs:complexType>
+ <xs:attributeGroup name="common"><xs:attribute name="tag" type="xs:string"/><xs:attribute name="uid" type="xs:int" use="required"/></xs:attributeGroup>
+</xs:schema>''', ['<h:doc xmlns:h="urn:h" uid="1"><h:node uid="2"><h:leaf uid="3">5</h:leaf></h:node></h:doc>',
+                  '<h:doc xmlns:h="urn:h" uid="1"><h:node><h:leaf uid="3">5</h:leaf></h:node></h:doc>',
+                  '<h:doc xmlns:h="urn:h" uid="1"><h:node uid="x" tag="t"/></h:doc>']),
+    ('blockDefault/finalDefault', '''<xs:schema xmlns:xs="http://www.w3.org/2001/XMLSchema" targetNamespace="urn:h" xmlns:h="urn:h"
+   elementFormDefault="qualified" blockDefault="extension" finalDefault="restriction">
+ <xs:element name="doc"><xs:complexType><xs:sequence><xs:element ref="h:it" maxOccurs="unbounded"/></xs:sequence></xs:complexType></xs:element>
+ <xs:element name="it" type="h:B"/>
+ <xs:complexType name="B"><xs:sequence><xs:element name="a" type="xs:int" minOccurs="0"/></xs:sequence></xs:complexType>
+ <xs:complexType name="E"><xs:complexContent><xs:extension base="h:B"><xs:sequence><xs:element name="b" type="xs:int"/></xs:sequence></xs:extension></xs:complexContent></xs:complexType>
+ <xs:simpleType name="S"><xs:restriction base="xs:int"><xs:maxInclusive value="9"/></xs:restriction></xs:simpleType>
+</xs:schema>''', ['<h:doc xmlns:h="urn:h"><h:it><h:a>1</h:a></h:it></h:doc>',
+                  '<h:doc xmlns:h="urn:h" xmlns:xsi="http://www.w3.org/2001/XMLSchema-instance"><h:it xsi:type="h:E"><h:a>1</h:a><h:b>2</h:b></h:it></h:doc>']),
+    ('unqualified forms + attributeFormDefault', '''<xs:schema xmlns:xs="http://www.w3.org/2001/XMLSchema" targetNamespace="urn:h" xmlns:h="urn:h"
+   attributeFormDefault="qualified">
+ <xs:element name="doc" type="h:T"/>
+ <xs:complexType name="T"><xs:sequence><xs:element name="loc" type="h:U" maxOccurs="2"/></xs:sequence><xs:attribute name="k" type="xs:int"/></xs:complexType>
+ <xs:complexType name="U"><xs:sequence><xs:element name="in" type="xs:string" minOccurs="0"/></xs:sequence><xs:attribute name="m" type="xs:int" use="required"/></xs:complexType>
+</xs:schema>''', ['<h:doc xmlns:h="urn:h" h:k="1"><loc h:m="2"><in>x</in></loc></h:doc>',
+                  '<h:doc xmlns:h="urn:h" k="1"><h:loc m="2"/></h:doc>']),
+    ('defaultOpenContent + xpathDefaultNamespace (1.1)', '''<xs:schema xmlns:xs="http://www.w3.org/2001/XMLSchema" targetNamespace="urn:h" xmlns:h="urn:h"
+   elementFormDefault="qualified" xpathDefaultNamespace="##targetNamespace">
+ <xs:defaultOpenContent mode="suffix"><xs:any namespace="##other" processContents="lax"/></xs:defaultOpenContent>
+ <xs:element name="doc" type="h:T"><xs:unique name="u"><xs:selector xpath="row"/><xs:field xpath="@id"/></xs:unique></xs:element>
+ <xs:complexType name="T"><xs:sequence><xs:element name="row" type="h:R" maxOccurs="unbounded"/></xs:sequence></xs:complexType>
+ <xs:complexType name="R"><xs:sequence><xs:element name="v" type="xs:int" minOccurs="0"/></xs:sequence><xs:attribute name="id" type="xs:int"/>
+   <xs:assert test="not(v) or v ge 0"/></xs:complexType>
+</xs:schema>''', ['<h:doc xmlns:h="urn:h" xmlns:o="urn:o"><h:row id="1"><h:v>1</h:v><o:x/></h:row><h:row id="2"/><o:y/></h:doc>',
+                  '<h:doc xmlns:h="urn:h"><h:row id="1"/><h:row id="1"><h:v>-1</h:v></h:row></h:doc>']),
+]
+
+
+def header_family(ctx: Ctx, tmp: str) -> None:
+    from pathlib import Path
+    for k, (name, xsd, docs) in enumerate(HEADER_FAMILY):
+        d = os.path.join(tmp, f'hdr{k}')
+        orig = os.path.join(d, 'orig')
+        os.makedirs(orig)
+        with open(os.path.join(orig, 'main.xsd'), 'w') as f:
+            f.write(xsd)
         probes = []
-        for x in xmls:
-            p = src.parent / x
-            if p.exists():
-                probes.append(str(p))
-        o0 = observe(s0, probes)
-        tree = ET.parse(main0)
-        rootel = tree.getroot()
-        if any(c.tag in (XSD + 'redefine', XSD + 'override') for c in rootel):
+        for j, x in enumerate(docs):
+            pth = os.path.join(orig, f'probe{j}.xml')
+            with open(pth, 'w') as f:
+                f.write(x)
+            probes.append(pth)
+        arrangements_of(ctx, d, Path(orig), 'main.xsd', probes, 'header-family: ' + name, ctx.pick(6, 16))
+
+
+def arrangements_of(ctx: Ctx, d: str, srcdir: Any, srcname: str, probes: list, rel: str, n_variants: int) -> bool:
+    """permutations and include-splits (same header) of one schema document, compared with the original"""
+    import lxml.etree as ET
+    main0 = os.path.join(d, 'orig', srcname)
+    try:
+        s0, cls = build_any(main0)
+    except Exception:   # noqa  (deliberately invalid test schemas, remote imports)
+        ctx.count('corpus: base does not build (skipped)')
+        return False
+    o0 = observe(s0, probes)
+    tree = ET.parse(main0)
+    rootel = tree.getroot()
+    if any(c.tag in (XSD + 'redefine', XSD + 'override') for c in rootel):
+        return True
+    for vi in range(n_variants):
+        t = ET.parse(main0)
+        r = t.getroot()
+        globs = [c for c in r if c.tag in GLOBAL_TAGS]
+        names = [(c.tag, c.get('name')) for c in globs]
+        if len(set(names)) != len(names) or len(globs) < 2:
+            break
+        for c in globs:
+            r.remove(c)
+        ctx.rng.shuffle(globs)
+        vd = os.path.join(d, f'v{vi}')
+        shutil.copytree(srcdir, vd)
+        kind = 'perm'
+        if vi % 2 == 1:
+            # move a suffix of the declarations into a new included document with the same header
+            cut = ctx.rng.randint(1, len(globs) - 1)
+            t2 = ET.parse(main0)
+            r2 = t2.getroot()
+            for c in list(r2):
+                if c.tag in GLOBAL_TAGS:
+                    r2.remove(c)
+            for c in globs[cut:]:
+                r2.append(c)
+            t2.write(os.path.join(vd, 'zz_part.xsd'))
+            inc = ET.SubElement(r, XSD + 'include')
+            inc.set('schemaLocation', ctx.rng.choice(['zz_part.xsd', './zz_part.xsd', 'q/../zz_part.xsd']))
+            r.remove(inc)
+            # includes must precede the declarations: insert after the last include/import/annotation prefix
+            pos = 0
+            for k2, c in enumerate(r):
+                if c.tag in (XSD + 'include', XSD + 'import'):
+                    pos = k2 + 1
+            r.insert(pos, inc)
+            globs = globs[:cut]
+            kind = 'split2'
+        for c in globs:
+            r.append(c)
+        t.write(os.path.join(vd, srcname))
+        case = {'corpus': rel, 'variant': vi, 'kind': kind, 'class': cls.__name__}
+        try:
+            s1 = cls(os.path.join(vd, srcname))
+        except Exception as e:   # noqa
+            ctx.failure('an arrangement of a corpus schema is rejected', case,
+                        {'error': type(e).__name__, 'message': str(e)[:400]})
             continue
-        for vi in range(ctx.pick(3, 8)):
-            t = ET.parse(main0)
-            r = t.getroot()
-            globs = [c for c in r if c.tag in GLOBAL_TAGS]
-            names = [(c.tag, c.get('name')) for c in globs]
-            if len(set(names)) != len(names) or len(globs) < 2:
-                break
-            for c in globs:
-                r.remove(c)
-            ctx.rng.shuffle(globs)
-            vd = os.path.join(d, f'v{vi}')
-            shutil.copytree(src.parent, vd)
-            kind = 'perm'
-            if vi % 2 == 1:
-                # move a suffix of the declarations into a new included document with the same header
-                cut = ctx.rng.randint(1, len(globs) - 1)
-                t2 = ET.parse(main0)
-                r2 = t2.getroot()
-                for c in list(r2):
-                    if c.tag in GLOBAL_TAGS:
-                        r2.remove(c)
-                for c in globs[cut:]:
-                    r2.append(c)
-                t2.write(os.path.join(vd, 'zz_part.xsd'))
-                inc = ET.SubElement(r, XSD + 'include')
-                inc.set('schemaLocation', ctx.rng.choice(['zz_part.xsd', './zz_part.xsd', 'q/../zz_part.xsd']))
-                r.remove(inc)
-                # includes must precede the declarations: insert after the last include/import/annotation prefix
-                pos = 0
-                for k2, c in enumerate(r):
-                    if c.tag in (XSD + 'include', XSD + 'import', XSD + 'annotation', XSD + 'defaultOpenContent'):
-                        pos = k2 + 1
-                r.insert(pos, inc)
-                globs = globs[:cut]
-                kind = 'split2'
-            for c in globs:
-                r.append(c)
-            t.write(os.path.join(vd, src.name))
-            case = {'corpus': rel, 'variant': vi, 'kind': kind}
-            try:
-                s1 = xmlschema.XMLSchema(os.path.join(vd, src.name))
-            except Exception as e:   # noqa
-                ctx.failure('an arrangement of a corpus schema is rejected', case,
-                            {'error': type(e).__name__, 'message': str(e)[:400]})
-                continue
-            o1 = observe(s1, probes)
-            ctx.case(case, True, tag='corpus:' + kind)
-            dd = diff_obs(o0, o1)
-            if dd is not None:
-                ctx.failure('arrangement changes a corpus schema: ' + dd['what'], case, dd)
+        o1 = observe(s1, [os.path.join(vd, os.path.basename(p)) if os.path.exists(os.path.join(vd, os.path.basename(p))) else p
+                          for p in probes])
+        ctx.case(case, True, tag='corpus:' + kind)
+        dd = diff_obs(o0, o1)
+        if dd is not None:
+            ctx.failure('arrangement changes a corpus schema: ' + dd['what'], case, dd)
+    return True
 
 
 # =============================================================================================
@@ -750,6 +819,7 @@ def run(ctx: Ctx, driver_ok: bool) -> None:
     batch = Batch()
     try:
         ill_formed(ctx, drv, batch, tmp)
+        header_family(ctx, tmp)
         corpus(ctx, tmp)
         n = ctx.pick(70, 900)
         for i in range(n):
